@@ -21,13 +21,13 @@ def _nt(rec):
 
 def stages(tier, rng, only=None):
     out = [ac.stage("grid3x2", PID, lambda: ac.cases(grids.datasets(3, 2), ["PickAPerm"], SCHEMES, all_schemes=True,
-                                                     namings=["ints", "letters"]), _nt)]
+                                                     namings=["ints", "letters", "weird"]), _nt)]
     n_rand = 600 if tier == "quick" else 6000
     out.append(ac.stage("random", PID, lambda: ac.cases([ac.random_dataset(rng, 7, 6) for _ in range(n_rand)],
                                                         ["PickAPerm"], SCHEMES + ac.grid_sample(rng, 10)), _nt))
     out.append(ac.stage("reuse_after_mutation", PID, lambda: ac.reuse_mutate_cases(
         grids.datasets(3, 2) + [ac.random_dataset(rng, 6, 5, nmin=2) for _ in range(n_rand // 2)], ["PickAPerm"],
-        SCHEMES, rng, flags=(1, 0)), _nt))
+        [ac.P_UNI1, ac.P_UNI1, ac.P_UNI5, ac.P_IND1], rng, flags=(1, 0), all_ops=True), _nt))
     out.append(ac.stage("reuse_other_dataset", PID, lambda: ac.reuse_other_cases(
         grids.datasets(3, 2) + [ac.random_dataset(rng, 6, 5, nmin=2) for _ in range(n_rand // 2)], ["PickAPerm"],
         SCHEMES, rng, flags=(1, 0)), _nt))
